@@ -688,7 +688,7 @@ void BootstrapRandomGroupsCV(MODELINPUT *input,
           predicted_y->data[i][j] = sum_ypredictions->data[i][j];
 
         if(pred_residuals != NULL)
-          pred_residuals->data[i][j] = sum_ypredictions->data[i][j] - my->data[i][(size_t)floor(j/nlv)];
+          pred_residuals->data[i][j] = sum_ypredictions->data[i][j] - my->data[i][j % my->col];
       }
     }
 
@@ -973,7 +973,7 @@ void LeaveOneOut(MODELINPUT *input,
       ResizeMatrix(pred_residuals, my->row, my->col*nlv); /* each component have my->col ypsilon */
       for(i = 0; i < loopredictedy->row; i++){
         for(j = 0; j < loopredictedy->col; j++){
-          pred_residuals->data[i][j] = loopredictedy->data[i][j] - my->data[i][(size_t)floor(j/nlv)];
+          pred_residuals->data[i][j] = loopredictedy->data[i][j] - my->data[i][j % my->col];
         }
       }
     }
@@ -1198,7 +1198,7 @@ void KFoldCV(MODELINPUT *input,
 
       for(i = 0; i < y_predicted->row; i++){
         for(j = 0; j < y_predicted->col; j++){
-          pred_residuals->data[i][j] = y_predicted->data[i][j] - my->data[i][(size_t)floor(j/nlv)];
+          pred_residuals->data[i][j] = y_predicted->data[i][j] - my->data[i][j % my->col];
         }
       }
     }
